@@ -37,7 +37,7 @@ class Profile(object):
         self.itemize = r.random() < 0.3
         self.nc = r.random() < 0.3
         self.sched1_adjust = r.random() < 0.3       # HSA etc.
-        self.wage_scale = r.choice([20000, 60000, 60000, 120000, 250000, 600000])
+        self.wage_scale = r.choice([20000, 60000, 60000, 120000, 230000, 230000, 600000])
         self.cents = r.random() < 0.5
         self.gate = None            # (input full name, affirmative answer) to flip
         self.yes_rate = 0.0         # probability of an affirmative answer to an unknown boolean
@@ -45,6 +45,7 @@ class Profile(object):
         self.qualified_div = r.random() < 0.5
         self.ira = r.random() < 0.5
         self.text_pool = None
+        self.dup_w2 = r.random() < 0.15           # every W-2 copy carries the same amounts (two identical jobs)
         self.hsa_you = self.sched1_adjust and r.random() < 0.6
         self.hsa_spouse = self.sched1_adjust and r.random() < 0.5     # only asked on a joint return
         self.f8606 = r.random() < 0.25
@@ -221,12 +222,19 @@ class Answerer(object):
 
     def money(self, form, fbase, base):
         p, r = self.p, self.r
+        if fbase == "w-2" and p.dup_w2 and not form.endswith(":0"):
+            first = "w-2:0.%s" % base
+            if first in self.given:
+                return self.given[first]
         if fbase == "w-2":
             if base in ("box_1", "box_3", "box_5", "box_16"):
                 w = getattr(self, "_w2_" + form, None)
                 if w is None:
                     w = self.amount(allow_zero=False)
-                    if w < 66000.0 and r.random() < 0.8:
+                    if p.wage_scale == 230000:
+                        # the window in which Form 8959 (Additional Medicare Tax) is needed but Form 6251 is not yet
+                        w = round(r.uniform(201000.0, 275000.0), 2 if p.cents else 0) if form.endswith(":0") else round(r.uniform(1000.0, 20000.0), 0)
+                    elif w < 66000.0 and r.random() < 0.8:
                         w = round(66000.0 + r.uniform(0, max(1000.0, p.wage_scale)), 2 if p.cents else 0)   # above the (unimplemented) EIC range
                     setattr(self, "_w2_" + form, w)
                 return "%.2f" % (w if base != "box_3" else min(w, 147000.0))
@@ -236,7 +244,9 @@ class Answerer(object):
             if base in ("box_4",):
                 return "%.2f" % round(min(getattr(self, "_w2_" + form, 50000.0), 147000.0) * 0.062, 2)
             if base in ("box_6",):
-                return "%.2f" % round(getattr(self, "_w2_" + form, 50000.0) * 0.0145, 2)
+                m = round(getattr(self, "_w2_" + form, 50000.0) * 0.0145, 2)
+                # sometimes the employer withheld a little (cent rounding) or a lot less, or more, than 1.45 %
+                return "%.2f" % max(0.0, m + r.choice([0.0, 0.0, 0.0, -0.01, -0.05, -120.0, 0.01, 35.0]))
             return "%.2f" % self.small(2000)
         if fbase in ("1099-int", "1099-div", "1099-g", "1099-r", "1098"):
             if base in ("box_6", "box_7") and fbase in ("1099-int", "1099-div") and not (fbase == "1099-int" and base == "box_7"):
